@@ -29,6 +29,10 @@ CONFIGS = ["zkinterface", "zkifbellman", "zkifbulletproofs"]
 LIGHT_OPS = [n for n in ir.OPS if n not in ("poseidon", "poseidon1", "permute", "ggh")]
 
 
+class StaleOutput(Exception):
+    pass
+
+
 def check_file(msgs, expect_kinds, ref, p, label):
     kinds = [k for k, _ in msgs]
     # the format allows a constraint system to be spread over several ConstraintSystem messages: they are concatenated
@@ -134,14 +138,16 @@ def judge(trace, name, mod, tmp, alt_privs=None, split=None):
     def produce(tr):
         backends.reset_state(name, mod)
         backends.apply_trace(tr, mod)
-        for f in ("computation.zkif", "circuit.zkif"):
-            if os.path.exists(os.path.join(tmp, f)):
-                os.remove(os.path.join(tmp, f))
-        mod.prove()
+        msg = backends.prove_over_stale(mod, tmp, ("computation.zkif", "circuit.zkif"))
+        if msg:
+            raise StaleOutput(msg)
         return (open(os.path.join(tmp, "computation.zkif"), "rb").read(), open(os.path.join(tmp, "circuit.zkif"), "rb").read())
     if mod.get_modulus() != p:
         return "%s works in the field of order %d, expected %d" % (name, mod.get_modulus(), p)
-    comp, circ = produce(trace)
+    try:
+        comp, circ = produce(trace)
+    except StaleOutput as e:
+        return str(e)
     try:
         mcomp = fbreader.read_file(comp)
         mcirc = fbreader.read_file(circ)
